@@ -72,6 +72,53 @@ func usesAfter(v ssa.Value, from ssa.Instruction) []ssa.Instruction {
 	return out
 }
 
+// staleUsesAfter returns the uses of this instance of v that can execute after call: instructions
+// reachable from the call without re-executing v's definition (for a loop phi, re-entering its block
+// creates a new instance), and phi edges taken after the call.
+func staleUsesAfter(v ssa.Value, call ssa.Instruction) []ssa.Instruction {
+	var defBlock *ssa.BasicBlock
+	if in, ok := v.(ssa.Instruction); ok {
+		defBlock = in.Block()
+	}
+	reach := map[*ssa.BasicBlock]bool{}
+	var walk func(b *ssa.BasicBlock)
+	walk = func(b *ssa.BasicBlock) {
+		if reach[b] || b == defBlock {
+			return
+		}
+		reach[b] = true
+		for _, s := range b.Succs {
+			walk(s)
+		}
+	}
+	for _, s := range call.Block().Succs {
+		walk(s)
+	}
+	var out []ssa.Instruction
+	for _, r := range core.Referrers(v) {
+		if r == call {
+			continue
+		}
+		if _, isDbg := r.(*ssa.DebugRef); isDbg {
+			continue
+		}
+		if phi, isPhi := r.(*ssa.Phi); isPhi {
+			for i, e := range phi.Edges {
+				if e == v && i < len(phi.Block().Preds) {
+					if p := phi.Block().Preds[i]; reach[p] || p == call.Block() {
+						out = append(out, r)
+					}
+				}
+			}
+			continue
+		}
+		if reach[r.Block()] || (r.Block() == call.Block() && core.InstrIndex(r) > core.InstrIndex(call)) {
+			out = append(out, r)
+		}
+	}
+	return out
+}
+
 func runC11(c *Ctx) {
 	R := c.R
 	R.Technique = "value-provenance and use-after-point rules on the handshake functions (which connection / reader value is live after the SSL reply), guard dominance of the reply bytes, who-may-construct readers"
@@ -79,6 +126,7 @@ func runC11(c *Ctx) {
 		"(R2) after 'S' has been written the plaintext connection value is used for nothing but tls.Server, the pre-upgrade reader (which may hold stuffed plaintext) is dead, every return of the upgraded branch hands out the TLS connection and a reader newly constructed on that TLS connection; in serve the writer, the command loop and all further reads use Handshake's results, the accepted connection value is only closed / asked for its address, and a failed handshake writes nothing (so nothing is ever written in plaintext after 'S'); " +
 		"(R3) after 'N' the same connection and the same reader continue and a CancelRequest is refused; buffer.NewReader is constructed exactly at the two designated places; (R4) no code inspects the dynamic type of the connection, so TLS and plaintext sessions run the same code. Not decided: crypto/tls itself; the behaviour of a TLS client."
 	R.Assumptions = []string{"tls.Server returns a connection on which all I/O happens inside the TLS session; the handshake runs lazily on first use"}
+	R.Explanation += " Also decided: in the caller chain of the upgrade step the connection / reader values handed to it are dead after the call (no use of this instance is reachable from the call); the reader built on the TLS connection takes the same Server fields (logger, size) as the plaintext reader."
 	R.Trusted = []string{"go/types + go/ssa", "crypto/tls"}
 
 	// ---------- R1
@@ -293,6 +341,42 @@ func runC11(c *Ctx) {
 		cur = sites[0].Parent()
 		chain = append(chain, cur)
 	}
+	// once the upgrade step has been called, the connection and reader values handed to it are dead in the caller
+	for i := 1; i < len(chain); i++ {
+		up, down := chain[i], chain[i-1]
+		for _, ci := range callsIn(up, calleeIs(down)) {
+			nStale := 0
+			for _, a := range ci.Common().Args {
+				if !core.IsNamed(a.Type(), "net", "Conn") && !core.IsNamed(a.Type(), pkBuffer, "Reader") {
+					continue
+				}
+				var stale []ssa.Instruction
+				var srcs []ssa.Value
+				leaves(a, map[ssa.Value]bool{}, &srcs)
+				srcs = append(srcs, a)
+				seenUse := map[ssa.Instruction]bool{}
+				for _, src := range srcs {
+					if in, isInstr := src.(ssa.Instruction); isInstr && in.Block() == ci.Block() && core.InstrIndex(in) > core.InstrIndex(ci) {
+						continue // produced by the upgrade step itself: the new value
+					}
+					for _, u := range staleUsesAfter(src, ci) {
+						if seenUse[u] {
+							continue
+						}
+						seenUse[u] = true
+						stale = append(stale, u)
+					}
+				}
+				for _, u := range stale {
+					nStale++
+					R.Fail("C11.R2", fkey(up)+":pre-upgrade-value-used-after-upgrade:"+instrDescr(u), c.at(u), "after the upgrade step has run, its caller uses only the connection and reader it returned", "the value handed to "+fkey(down)+" ("+a.Name()+") is still used afterwards by "+instrDescr(u)+": after a TLS upgrade this is the plaintext connection / the pre-upgrade reader")
+				}
+			}
+			if nStale == 0 {
+				R.OK("C11.R2", fkey(up)+":pre-upgrade-values-dead", c.at(ci), "after the upgrade step has run, its caller uses only the connection and reader it returned", "no use of the passed connection / reader is reachable from the call")
+			}
+		}
+	}
 	for i := 1; i < len(chain); i++ {
 		up, down := chain[i], chain[i-1]
 		if up == hs {
@@ -440,6 +524,29 @@ func runC11(c *Ctx) {
 			R.Check(okSite, "C11.R3", "NewReader-site:"+fkey(site.Parent()), c.at(site), "a connection's reader is constructed only at the start of the handshake and on the freshly upgraded TLS connection", "designated construction site", "buffer.NewReader is constructed in "+fname(site.Parent())+": bytes buffered by the previous reader are dropped (segmentation-dependent behaviour) or plaintext survives the upgrade")
 		}
 	}
+	// both readers are configured identically (same logger and size expression): a TLS session has the same limits
+	var hsSite, tlsSite ssa.CallInstruction
+	for _, site := range c.P.CallSitesOf(nrf) {
+		if site.Parent() == hs {
+			hsSite = site
+		}
+		if site.Parent() == pcu && tlsCall != nil && core.InstrDominates(tlsCall, site) {
+			tlsSite = site
+		}
+	}
+	if hsSite != nil && tlsSite != nil {
+		same := true
+		detail := ""
+		for _, i := range []int{0, 2} {
+			p1 := c.originPath(hsSite.Common().Args[i], hsSite.Parent(), 3)
+			p2 := c.originPath(tlsSite.Common().Args[i], tlsSite.Parent(), 3)
+			if p1 != p2 || p1 == "" {
+				same = false
+				detail += sprintf(" argument %d: %q vs %q;", i, p1, p2)
+			}
+		}
+		R.Check(same, "C11.R3", "NewReader:same-configuration-after-upgrade", c.at(tlsSite), "the reader of the TLS session is configured exactly like the plaintext reader (same logger, same buffer size / message-size limit)", "both NewReader calls take the same Server fields", "the reader built after the upgrade is configured differently from the plaintext one:"+detail+" a TLS session gets different limits than its plaintext equivalent")
+	}
 	R.Check(len(where) == 2, "C11.R3", "NewReader-sites", "-", "exactly two reader construction sites exist in package wire", sprintf("%v", where), sprintf("reader construction sites: %v", where))
 
 	// ---------- R4: no dynamic-type inspection of connections
@@ -483,4 +590,34 @@ func maxInt(a, b int) int {
 		return a
 	}
 	return b
+}
+
+// originPath names where a value comes from in caller-independent terms: "<root type>.<field path>" for a
+// path from a parameter of a named (pointer) type, following a plain parameter up through the function's
+// single call site. "" when the origin is not such a path.
+func (c *Ctx) originPath(v ssa.Value, fn *ssa.Function, depth int) string {
+	root, p := pathOf(v)
+	prm, ok := root.(*ssa.Parameter)
+	if !ok {
+		return ""
+	}
+	if p != "" {
+		if n := core.NamedOf(prm.Type()); n != nil {
+			return n.Obj().Name() + p
+		}
+		return ""
+	}
+	if depth == 0 {
+		return ""
+	}
+	sites := c.P.CallSitesOf(fn)
+	if len(sites) != 1 {
+		return ""
+	}
+	for i, q := range fn.Params {
+		if q == prm && i < len(sites[0].Common().Args) {
+			return c.originPath(sites[0].Common().Args[i], sites[0].Parent(), depth-1)
+		}
+	}
+	return ""
 }
